@@ -37,6 +37,7 @@ struct fs_counters
   long mmaps = 0;		// file-backed mmaps of tracked fds
   long mmaps_denied = 0;
   long io_eio = 0, io_short = 0, io_eintr = 0;	// fired
+  long patched_bytes = 0;	// damaged bytes actually delivered to a reader
   long closes = 0;
   long close_ebadf = 0;		// close() of a tracked fd number returned EBADF
   long close_ebadf_in_libs = 0;	// same, but both closes came from a shared library
@@ -46,7 +47,8 @@ struct fs_counters
 void fs_reset ();
 void fs_set_tests_dir (std::string const &dir);
 void fs_add_override (std::string const &vpath, std::string const &backing,
-		      int open_errno);
+		      int open_errno,
+		      std::vector <std::pair <long, int>> const &patches = {});
 void fs_set_deny_mmap (bool deny);
 // Arm faults for the calls issued from now on: the N-th (0-based) read/pread
 // on a tracked fd fails in the given way.  Clears the call counter.
@@ -67,6 +69,9 @@ struct plan_file
   std::string vpath;
   std::string backing;	// empty: none
   int open_errno;	// 0: none
+  // Damage: bytes of the file as seen through read/pread (mmap is denied for
+  // such a file, so that everything goes through pread).
+  std::vector <std::pair <long, int>> patches;
 };
 
 struct plan_prog
